@@ -117,6 +117,9 @@ static void init(void) {
     if ((e = getenv("SIMIO_RAND_SEED"))) { rand_on = 1; rand_state = strtoull(e, NULL, 16) | 1; }
 }
 
+/* in-process (E1): start logging intercepted calls to this fd */
+void simio_trace_to(int fd) { init(); trace_fd = fd; }
+
 void simio_ambient(int64_t offset_s, int64_t step_s, int r_on, uint64_t r_seed) {
     init();
     clock_offset = offset_s; clock_step = step_s; clock_reads = 0;
@@ -262,6 +265,20 @@ int getentropy(void *buf, size_t len) {
 }
 
 /* ---- recorded, never perturbed ---- */
+
+char *getenv(const char *name) {
+    static char *(*real)(const char *);
+    if (!real) real = dlsym(RTLD_NEXT, "getenv");
+    if (inited && trace_fd >= 0) tr("getenv %s", name);
+    return real ? real(name) : NULL;
+}
+char *secure_getenv(const char *name) {
+    static char *(*real)(const char *);
+    if (!real) real = dlsym(RTLD_NEXT, "secure_getenv");
+    if (inited && trace_fd >= 0) tr("getenv %s", name);
+    return real ? real(name) : NULL;
+}
+
 
 int open(const char *path, int flags, ...) {
     init();
